@@ -16,7 +16,11 @@ pub fn pi(v: &Value) -> i128 {
         Some(r) => (true, r),
         None => (false, s),
     };
-    let m: i128 = digits.parse::<u128>().ok().and_then(|x| i128::try_from(x).ok()).unwrap_or(0);
+    // values beyond the reference range saturate; oracles treat anything above 10^36 as "out of range - skip"
+    let m: i128 = match digits.parse::<u128>() {
+        Ok(x) => i128::try_from(x).unwrap_or(i128::MAX),
+        Err(_) => 0,
+    };
     if neg {
         -m
     } else {
